@@ -32,6 +32,7 @@ import gen as c20gen  # noqa: E402
 
 THEOREMS = ["JanetModel.Props.C20." + t for t in (
     "done_expr_match", "counter_sites_match", "poll_phase_match", "root_sites_match", "stream_close_match",
+    "proc_gc_match", "finalizer_reaps_every_child", "nohang_finalizer_leaves_zombies",
     "orphan_le_lis", "streamClose_releases_all", "close_with_two_listeners_orphans_writer", "orphan_listener_never_done",
     "step_inv", "run_inv", "loop1_inv", "janetLoop_inv", "janetLoop_exit_nothing_outstanding", "listener_count_inv", "no_premature_exit", "no_hang_when_idle", "loopDone_iff_idle",
     "null_event_keeps_loop_alive", "nullStuck_zero", "loopDone_iff_idle_fixed", "collected_suspended_task_keeps_count",
@@ -394,6 +395,9 @@ def run(ctx):
     if gen_facts and not gen_facts["tchan_unroot"]["cb"] and not any(v["name"].startswith("thread-chan") and v["leaks"] for v in cyc):
         broken.append("Gen.Loop.tchanUnrootCb = false (theorem tchan_root_never_released applies) but no thread-chan cycle leaked roots")
 
+    if gen_facts and gen_facts["proc_gc_wait_options"] != "0" and not any(v["name"].startswith("gc-only-") and v["leaks"] for v in cyc):
+        broken.append("janet_proc_gc no longer waits blockingly (waitpid options %s; theorem nohang_finalizer_leaves_zombies applies) but no gc-only-* "
+                      "cycle left children behind" % gen_facts["proc_gc_wait_options"])
     if gen_facts and not gen_facts["close_notifies_both"] and not any(v["name"].startswith("duplex-") and v["fail"] for v in cyc):
         broken.append("Gen.Loop.closeNotifiesBoth = false (theorem close_with_two_listeners_orphans_writer applies) but no duplex-* cycle hung")
 
@@ -428,7 +432,7 @@ def run(ctx):
         "mixes": len(mixes), "mix_steps": total_steps, "mix_task_kinds": kinds_hit,
         "correspondence_events": corr_events, "correspondence_steps_compared": corr_snaps, "correspondence_mixes_differing": len(corr_diffs),
         "generated": {"tchan_unroot": gen_facts["tchan_unroot"], "close_notifies_both": gen_facts["close_notifies_both"],
-                      "selfpipe_dec_needs_cb": gen_facts["selfpipe_dec_needs_cb"], "counter_sites": len(gen_facts["counter"]), "root_sites": len(gen_facts["roots"])} if gen_facts else None,
+                      "selfpipe_dec_needs_cb": gen_facts["selfpipe_dec_needs_cb"], "proc_gc_wait_options": gen_facts["proc_gc_wait_options"], "counter_sites": len(gen_facts["counter"]), "root_sites": len(gen_facts["roots"])} if gen_facts else None,
     }
     return ctx.finish("proof", cov, assumptions=[
         "descriptor / child / zombie counts read from /proc; heap blocks and roots from janet_vm after two forced collections",
